@@ -147,6 +147,9 @@ class Gen:
             if len(self.open) > 1 or self.r.random() < 0.3:
                 cid = self.some_conn()
                 self.ops.append(("close", cid)); del self.open[cid]; self.count("close")
+                for (owner, text, base) in getattr(self, "ext", []):
+                    if base == cid and owner in self.open and self.r.random() < 0.7:
+                        self.bus_call(owner, "RemoveMatch", "s", [text])      # must still be there
             return
         cid = self.some_conn(active=True) if self.r.random() < 0.93 else self.some_conn()
         if cid is None:
@@ -167,6 +170,18 @@ class Gen:
             else:
                 self.bus_call(cid, which, "s", [self.some_dest() if self.r.random() < 0.9 else self.r.choice(BAD_NAMES)])
         elif k == "addmatch":
+            others = [x for x, v in self.open.items() if v["unique"] and x != cid]
+            if self.rule_uniques and others and c["unique"] and self.r.random() < 0.15:
+                # a rule naming a textual extension of another live unique name; that other connection gets a
+                # rule of its own, so that its departure walks the rule lists
+                base = self.r.choice(others)
+                text = b"sender='" + self.open[base]["unique"] + str(self.r.randint(0, 9)).encode() + b"'"
+                self.rules[cid].append(text)
+                self.bus_call(cid, "AddMatch", "s", [text])
+                self.bus_call(base, "AddMatch", "s", [b"type='signal',member='N'"])
+                self.rules[base].append(b"type='signal',member='N'")
+                self.ext = getattr(self, "ext", []) + [(cid, text, base)]
+                return
             rule = self.gen_rule()
             self.rules[cid].append(rule)
             self.bus_call(cid, "AddMatch", "s", [rule])
@@ -301,7 +316,11 @@ class Gen:
         if self.r.random() < 0.25: parts.append(self.r.choice([b"path='", b"path_namespace='"]) + self.r.choice(PATHS) + b"'")
         if self.r.random() < 0.25:
             uniques = [v["unique"] for v in self.open.values() if v["unique"]] if self.rule_uniques else []
-            parts.append(b"sender='" + self.r.choice(NAMES + uniques + [BUS.encode()]) + b"'")
+            if self.rule_uniques and self.r.random() < 0.5:     # also names the bus has not handed out yet,
+                uniques = uniques + [(":1.%d" % self.r.randint(1, self.next_unique + 12)).encode() for _ in range(3)]
+                if uniques and self.r.random() < 0.6:           # ... among them textual extensions of live ones
+                    uniques = uniques + [self.r.choice(uniques) + str(self.r.randint(0, 9)).encode() for _ in range(4)]
+            parts.append(b"sender='" + self.r.choice(NAMES + uniques * 3 + [BUS.encode()]) + b"'")
         if self.r.random() < 0.15:
             uniques = [v["unique"] for v in self.open.values() if v["unique"]] if self.rule_uniques else []
             parts.append(b"destination='" + self.r.choice(NAMES + uniques) + b"'")
